@@ -10,6 +10,7 @@ ENGINES = {
     "p_accept": "rapidcheck-generated sources + token-level mutants + exhaustive single-token edits vs reference acceptor",
     "p_code": "rapidcheck-generated programs vs static bytecode verifier / table-inverse invariants with dynamic cross-checks",
     "p_total": "rapidcheck-generated file maps (neighbours, soup, bytes, truncated constructs, broken maps) + exhaustive single-token edits; sanitizers + result-shape invariant",
+    "p_dbg": "exhaustive short API histories + rapidcheck histories on generated programs vs an explicit stop/enable model over the recorded uninterrupted run",
     "p_scan": "rapidcheck tape generator + exhaustive enumerators vs reference lexer / include resolver",
 }
 
@@ -243,6 +244,67 @@ PROPS["C02"] = dict(
     level_text=("Exploration: hostile and mutated inputs of many shapes are compiled under sanitizers; the result shape stated by the property is "
                 "asserted on every case. Single-token edits of three fixed programs are enumerated completely."),
     level_note="trusted: sanitizer runtimes; reference lexer for token counts and line counts",
+)
+
+
+PROPS["C05"] = dict(
+    harness="p_dbg",
+    phases=dict(quick=[enum(8), rc(8, 1500)], thorough=[enum(16), rc(16, 40000)]),
+    rule=("cases: histories over {execute, executeSingle(xk), stepping on/off, enable/disable(location from the available ones and bogus "
+          "ones), clear, reads} of length 3-40 on generated programs (canonical and free layout, several sites per line, calls in loops), "
+          "plus ALL histories of length <=5 (quick) / <=6 (thorough) over an 8-letter alphabet on 7 fixed small programs. Oracle "
+          "(metamorphic): the uninterrupted run of a second VM recorded as instruction-pointer path with a digest of all activations' "
+          "variables; after every call the machine must be at the model's position on that path with the recorded values, its private "
+          "code may differ from the compiled code only in the opcode of listed sites, and completing the history with clear; stepping "
+          "off; execute ends in the uninterrupted run's final state. Non-trivial: >=1 stop inside a callee or >=2 stops, and >=1 "
+          "enable/disable/stepping change after execution started; distinct by hash of program+history."),
+    exhaustive_note=dict(quick="all 8-letter histories of length <=5 on 7 fixed programs", thorough="all 8-letter histories of length <=6 on 7 fixed programs"),
+    min_nontrivial=dict(quick=3000, thorough=50000),
+    assumptions=["the uninterrupted run is recorded for at most 1500 instructions; on programs that do not halt within that prefix execute() is only issued where the model predicts a stop inside the prefix (it cannot be interrupted), otherwise the history steps",
+                 "what getCurrentBreak() returns between sites or at HALT is not asserted (only at a stop, before the first step and after reset)"],
+    technique="model-based property testing: exhaustive short API histories + rapidcheck-generated histories; metamorphic oracle (same instruction path and values as the uninterrupted run)",
+    level_text="Exploration with an exhaustive sub-space (all short histories on fixed programs); random long histories on generated programs.",
+    level_note="trusted: read-only VM hooks (ip, frames, private code); the recorded uninterrupted run of the same implementation is the reference path",
+    env={"VERIF_FAMILY": "C05"},
+)
+
+PROPS["C06"] = dict(
+    harness="p_dbg",
+    phases=dict(quick=[enum(8), rc(8, 1500)], thorough=[enum(16), rc(16, 40000)]),
+    rule=("cases: as C05 plus reset (9-letter alphabet for the exhaustive part). Oracle: explicit model (position k on the recorded path, enabled "
+          "set E, stepping flag S): execute stops at the first j>=k whose instruction is a site with S or loc in E, else at the end; "
+          "executeSingle returns true exactly at such a site or at HALT; setBreakPoint returns true exactly for available locations and "
+          "updates E only then; after every call ip, isDone, the enabled set, the stepping flag and the armed/passive form of every site "
+          "are compared, getCurrentBreak() equals the site's location when the call stopped at a site and is none before the first step "
+          "and after reset. Non-trivial: stops at >=2 different sites of which one is on a line with >=2 sites or inside a callee."),
+    exhaustive_note=dict(quick="all 9-letter histories of length <=5 on 7 fixed programs", thorough="all 9-letter histories of length <=6 on 7 fixed programs"),
+    min_nontrivial=dict(quick=3000, thorough=50000),
+    assumptions=["the uninterrupted run is recorded for at most 1500 instructions; on programs that do not halt within that prefix execute() is only issued where the model predicts a stop inside the prefix (it cannot be interrupted), otherwise the history steps",
+                 "what getCurrentBreak() returns between sites or at HALT is not asserted (only at a stop, before the first step and after reset)"],
+    technique="model-based property testing: exhaustive short API histories + rapidcheck-generated histories vs an explicit stop/enable model",
+    level_text="Exploration with an exhaustive sub-space (all short histories on fixed programs); random long histories on generated programs.",
+    level_note="trusted: the stop/enable model in harness/props/p_dbg.cpp; read-only VM hooks",
+    env={"VERIF_FAMILY": "C06"},
+)
+
+PROPS["C17"] = dict(
+    harness="p_dbg",
+    phases=dict(quick=[enum(8), rc(8, 1500)], thorough=[enum(16), rc(16, 40000)]),
+    rule=("cases: history h1 (partial runs, stops inside callees, enabled breakpoints, stepping on), reset, history h2, any number of resets "
+          "(exhaustive 9-letter histories of length <=5/6 on 7 fixed programs; random histories with a forced reset in the middle). "
+          "Oracle: immediately after reset ip=0, no data words, no frames, every site passive, enabled set empty, stepping off, current "
+          "location none; afterwards every observation (ip, isDone, enabled set, stepping, current location, variable digest, data "
+          "memory, return values) equals a freshly constructed VM driven by the same calls; once the end was reached execute / "
+          "executeSingle change nothing and return true. Non-trivial: reset while >=2 activations are live and a breakpoint is enabled, "
+          "or a reset after progress in a history that also calls execute/executeSingle after the end."),
+    exhaustive_note=dict(quick="all 9-letter histories of length <=5 on 7 fixed programs", thorough="all 9-letter histories of length <=6 on 7 fixed programs"),
+    min_nontrivial=dict(quick=1500, thorough=30000),
+    assumptions=["the uninterrupted run is recorded for at most 1500 instructions; on programs that do not halt within that prefix execute() is only issued where the model predicts a stop inside the prefix (it cannot be interrupted), otherwise the history steps",
+                 "what getCurrentBreak() returns between sites or at HALT is not asserted (only at a stop, before the first step and after reset)"],
+    technique="model-based property testing: exhaustive short API histories + rapidcheck-generated histories; differential reset-vs-fresh machine incl. hidden state",
+    level_text="Exploration with an exhaustive sub-space (all short histories on fixed programs); random long histories on generated programs.",
+    level_note="trusted: read-only VM hooks for the hidden state",
+    env={"VERIF_FAMILY": "C17"},
 )
 
 
